@@ -269,12 +269,23 @@ def host_oracle(ctx, c, r, stats):
             ctx.fail("LCD.tick called a sleep function (must not block)", c, 0, rt["sleeps"], key="host-tick-sleeps")
             return
         cur = rt["snap"]
+        interleaved = bool(rt.get("pre"))
+        if interleaved:
+            prev = rt["pre"]            # the script's own line/write/clear calls came before this tick
         for ev in rt["events"]:
             if ev[0] not in anim_rows or len(ev[1]) != cols:
                 ctx.fail("tick wrote outside the animations' rows / not exactly the display width", c, [sorted(anim_rows), cols], ev, key="host-geometry")
                 return
         if len(cur["buffer"]) != rows or any(len(x) != cols for x in cur["buffer"]):
             ctx.fail("buffer shape changed", c, [rows, cols], cur["buffer"], key="host-buffer-shape")
+            return
+        if len(cur["states"]) != n or len(prev["states"]) != n:
+            if c.get("between"):
+                # the script's own calls changed the set of animations: what they may do to it is not C18's subject
+                stats["host_interleaved_cases_with_changed_registry"] = stats.get("host_interleaved_cases_with_changed_registry", 0) + 1
+                return
+            ctx.fail("a tick changed the number of animations of the display (a vanished animation never steps again, an extra one draws frames nobody started)",
+                     hcut(c, k), n, [len(prev["states"]), len(cur["states"])], key="host-registry")
             return
         for r_i in range(rows):
             if r_i not in anim_rows and cur["buffer"][r_i] != prev["buffer"][r_i]:
@@ -306,7 +317,7 @@ def host_oracle(ctx, c, r, stats):
                 if not loop and nsteps_seen[i] > bound(len(text), cols):
                     ctx.fail("non-looping animation still stepping after len+2*cols+2 steps", c, bound(len(text), cols), nsteps_seen[i], key="host-termination")
                     return
-                if n == 1:
+                if n == 1 and not interleaved and not c.get("between"):
                     ok = step_relation_ok(style, text, cols, prev["buffer"][row], cur["buffer"][row], nsteps_seen[i])
                     if ok is False:
                         ctx.fail("a step did not advance the animation by exactly one frame", c, prev["buffer"][row], cur["buffer"][row], key="host-one-step")
@@ -413,6 +424,24 @@ def gen_host_cases(ctx):
                        rng.choice([0, unit, 1, 100]), rng.random() < 0.5] for q in range(rng.randint(1, 3))]
             cases[-1]["peer"] = {"cols": pcols, "rows": prows, "anims": panims, "tick_before": [k for k in range(len(nows)) if k % 3 != 2]}
             cases[-1]["tag"] = "multi:two-displays"
+    # the script's own LCD calls between ticks (line on the animation's row / on another row, write, clear): tick still
+    # never raises, keeps to its rows and its schedule (oracle only: the animation models hold no line/write/clear)
+    for j in range(48 if thorough else 24):
+        style = STYLES[j % 4]
+        cols = [3, 8, 16][(j // 4) % 3]
+        rows = 2
+        row = (j // 2) % 2
+        loop = j % 2 == 0
+        speed = [0, 1, 100][(j // 8) % 3]
+        text = mk_text([1, cols - 1, cols + 2][(j // 3) % 3], salt=j)
+        nows = tick_times(["mixed", "burst", "ontime"][j % 3], speed, min(bound(len(text), cols) + 2, 40), rng, cap=200)
+        between = {}
+        for k in range(len(nows)):
+            if rng.random() < 0.3:
+                between[str(k)] = [rng.choice([["line", row, "xy"], ["line", 1 - row, "other row"], ["write", 1, row, "Q"], ["clear"],
+                                               ["line", row, "W" * (cols + 3)]]) for _ in range(rng.randint(1, 2))]
+        cases.append({"cols": cols, "rows": rows, "i2c": j % 2 == 1, "anims": [[style, row, text, speed, loop]], "nows": nows,
+                      "between": between, "tag": "interleaved-calls"})
     # geometry rejected by the constructor; tick with now = 0 (tick() without argument)
     cases.append({"cols": 0, "rows": 2, "i2c": False, "anims": [], "nows": [], "tag": "bad-geometry"})
     cases.append({"cols": 16, "rows": 0, "i2c": False, "anims": [], "nows": [], "tag": "bad-geometry"})
@@ -434,7 +463,7 @@ def run_host(ctx, stats):
     model = ctx.model([host_model_case(c) for c in cases]) if ctx.exe else [None] * len(cases)
     nontrivial = set()
     for c, r, m in zip(cases, impl, model):
-        if m is not None:
+        if m is not None and not c.get("between"):
             host_compare(ctx, c, m, r)
         if host_in_guard(c):
             host_oracle(ctx, c, r, stats)
